@@ -105,7 +105,9 @@ func (h *c12Harness) settle() bool {
 		for _, in := range h.insts {
 			if in.released {
 				rel++
-			} else {
+			} else if in.ctx.Err() == nil {
+				// (a cancelled run that has not returned yet does not stand for the slot of a
+				// newer run of the same receiver whose goroutine has not entered the stub yet)
 				byPeer[in.peer]++
 			}
 		}
